@@ -620,6 +620,15 @@ Section P2.
         congruence.
   Qed.
 
+  (* every row of a file whose keys are pairwise different is in the loaded map, under its own key *)
+  Theorem of_rows_keeps_all k (rows : table) (r : row) : keys_nodup O k rows = true -> In r rows ->
+    find_key k (firstn k r) (of_rows O false k rows) = Some r.
+  Proof.
+    intros N I. rewrite (of_rows_nodup false k rows N).
+    assert (EQ : forall x y : row, key_eqb O k x y = true <-> firstn k x = firstn k y) by (intros; apply (key_eqb_eq O OK)).
+    apply (find_key_In k (firstn k r) rows r); [apply (nodup_by_NoDup (key_eqb O k) (firstn k) rows EQ), N|tauto].
+  Qed.
+
   (* ROW ORDER IS IRRELEVANT: two files with the same rows (keys pairwise different) in any order load to the
      same map *)
   Theorem of_rows_order_irrelevant k (rows rows' : table) : keys_nodup O k rows = true -> Permutation rows rows' ->
